@@ -155,7 +155,7 @@ def _table(V, driver, table, mc, n):
     elif table == "h":
         mc.add_move(HamiltonianDisplacementMove(operation=Verlet(dt=V.real("dt", lo=0.1, hi=3), max_steps=1, apply_constraints=False)), name="hmc")
     elif table == "d+cellmove":
-        mc.add_move(DisplacementMove(lab, Box(step)), name="disp", probability=0.5)
+        mc.add_move(DisplacementMove(lab, Box(step)), name="disp", probability=V.real("prob_d", lo=0, hi=1))  # 0 = switched off
         mc.add_move(CellMove(IsotropicDeformation(V.real("maxv", lo=0.001, hi=0.2)), scale_atoms=False), name="cell", probability=0.5)
     elif table == "shape-masked":
         mask = np.ones((3, 3), dtype=bool)
@@ -166,7 +166,7 @@ def _table(V, driver, table, mc, n):
         mask[2, 2] = False
         mc.add_move(CellMove(AnisotropicDeformation(V.real("maxv", lo=0.001, hi=0.2), mask=mask)), name="cell")
     elif table == "e":
-        m = ExchangeMove(lab, Translation(), bias_towards_insert=V.real("bias", lo=0.1, hi=0.9))
+        m = ExchangeMove(lab, Translation(), bias_towards_insert=V.real("bias", lo=0, hi=1))
         m.default_label = 0
         mc.add_move(m, name="exch")
     elif table == "e+d":
@@ -373,7 +373,10 @@ def _concrete_restart(V, driver, table, n, info, nsteps=6):
                 return lo + 0.37 * (hi - lo)
             return super().real(name, lo, hi, **k)
 
-    Vc = _Geo({"symbols": {k: v for k, v in V.sym.items() if not k.startswith(("x", "p", "ex"))}, "draws": []})
+    import re as _re
+
+    # geometry/momenta come from _Geo (array elements are named x00, p01, ex00, ...); every other symbol of the witness is used
+    Vc = _Geo({"symbols": {k: v for k, v in V.sym.items() if not _re.fullmatch(r"(x|p|ex)\d+", k)}, "draws": []})
 
     def fresh():
         mc, atoms, pes = _make(Vc, driver, table, n)
